@@ -207,7 +207,7 @@ def check_proofs(ctx, props_rel, jobs=16):
     problems = build.regenerate_consts()
     for p in problems:
         ctx.infra_problem('constants extractor: ' + p)
-    ok, log = build.make(jobs)
+    ok, log = build.make(jobs, targets=[props_rel + 'o'])
     cone = build.dep_cone(props_rel)
     hits = build.forbidden_scan(cone)
     names = []
